@@ -1,44 +1,48 @@
 (* Properties/C19.v — Transactional storage shows base plus pending writes,
    then commits them.  Only statements here; proofs live in Proofs/C19.v.
 
-   G = Model/Txn.v (storage/transactional as it is), S = the abstract
-   transaction of Spec/AStore.v (a base and a view: every write goes to the
-   view, every read is a query on the view, Commit makes the base equal to the
-   view).  Answers are compared with [res_equiv]: listings up to order.
+   G = Model/Txn.v: storage/transactional with the three repairs committed in
+   the repository worktree (IterReferences filters the base listing,
+   CheckAndSetReference honours `deleted`, ShallowStorage has a `set` flag).
+   S = the abstract transaction of Spec/AStore.v (a base and a view: every
+   write goes to the view, every read is a query on the view, Commit makes the
+   base equal to the view).  Answers are compared with [res_equiv]: listings
+   up to order, but not up to multiplicity.
 
-   Full statement of the property (FALSE of the faithful model, see the
-   _refuted theorems):
+   Full statement of the property:
      forall U b ops, st_okb b = true ->
        Forall2 res_equiv (snd (g_run U (txn_begin b) ops)) (snd (spec_run U (spec_begin b) ops))
        /\ t_base (fst (g_run U (txn_begin b) ops)) = b
-       /\ g_commit (fst (g_run U (txn_begin b) ops)) = spec_commit (fst (spec_run U (spec_begin b) ops)). *)
+       /\ g_commit (fst (g_run U (txn_begin b) ops)) = spec_commit (fst (spec_run U (spec_begin b) ops)).
+   Its second and third conjuncts are proved for every history; the first is
+   proved for every history whose IterEncodedObjects calls are not made while
+   an object written in the transaction is also in the base (such an object is
+   listed twice: C19_view_refuted_iter_objects, a known finding).
+   On the tree as found three more witnesses refuted it (corpus/C19): an
+   overwritten or removed reference still listed, CAS succeeding after
+   RemoveReference, SetShallow([]) ignored; they are now theorems
+   (C19_repaired_witnesses). *)
 From Coq Require Import List NArith Bool Permutation.
 From GoGit Require Import Base.Out Spec.AStore Model.Txn Proofs.AStoreFacts Proofs.C19.
 Import ListNotations.
 Local Open Scope N_scope.
 
-(* the base storage is not touched before Commit — for every history, no guard *)
+(* the base storage is not touched before Commit — for every history *)
 Theorem C19_base_untouched : forall U b ops, t_base (fst (g_run U (txn_begin b) ops)) = b.
 Proof. intros. apply g_run_base. Qed.
 Print Assumptions C19_base_untouched.
 
-(* Commit writes exactly the transaction's own view (absview: base minus the
-   deleted names, overridden by temporal; index/config when set; the temporal
-   shallow list when non-empty; reflogs deleted then appended) — for every
-   history, no guard *)
+(* Commit writes exactly the transaction's own view — for every history *)
 Theorem C19_commit_abs : forall U b ops, st_okb b = true ->
   g_commit (fst (g_run U (txn_begin b) ops)) = absview (fst (g_run U (txn_begin b) ops)).
 Proof. exact commit_abs. Qed.
 Print Assumptions C19_commit_abs.
 
-(* every answer equals the answer of the abstract transaction, as long as each
-   call passes [op_ok] in the state it is made in:
-     IterReferences        no base name is deleted or overwritten in the transaction
-     CheckAndSetReference  old.Name() is not (deleted in the transaction and present in the base)
-     IterEncodedObjects    no object written in the transaction is already in the base
-     SetShallow l          l is not empty, or the base list is empty
-   all other calls (SetReference, Reference, RemoveReference, the object reads
-   and writes, index, config, Shallow, the three reflog calls) are unguarded *)
+(* every answer equals the answer of the abstract transaction; the only
+   guarded call is IterEncodedObjects (op_ok: no object written in the
+   transaction is already in the base).  SetReference, CheckAndSetReference,
+   Reference, IterReferences, RemoveReference, the object reads and writes,
+   index, config, shallow and the three reflog calls are unguarded *)
 Theorem C19_view_partial : forall U b ops,
   st_okb b = true -> guards U (txn_begin b) ops = true ->
   Forall2 res_equiv (snd (g_run U (txn_begin b) ops)) (snd (spec_run U (spec_begin b) ops)).
@@ -52,44 +56,10 @@ Theorem C19_commit_partial : forall U b ops,
 Proof. exact commit_partial. Qed.
 Print Assumptions C19_commit_partial.
 
-(* ---- the full statement is false: four witnesses (replayed on the real code
-   by corpus/C19/witnesses.json) *)
+(* ---- the full statement is still false for object listings *)
 Definition U1 : universe := fun _ => (3, 1).
 Definition full_view U b ops :=
   Forall2 res_equiv (snd (g_run U (txn_begin b) ops)) (snd (spec_run U (spec_begin b) ops)).
-
-(* an overwritten reference is listed twice *)
-Theorem C19_view_refuted_iter :
-  exists b ops, st_okb b = true /\ ~ full_view U1 b ops.
-Proof.
-  exists (mkStore [(0, RHash 0)] [] 0 0 [] []), [OSetRef 0 (RHash 1); OIterRefs].
-  split; [reflexivity|]. unfold full_view. vm_compute. intro H.
-  inversion H as [|? ? ? ? _ H2]; subst. inversion H2 as [|? ? ? ? HP _]; subst.
-  apply Permutation_length in HP. discriminate.
-Qed.
-Print Assumptions C19_view_refuted_iter.
-
-(* CAS after RemoveReference succeeds against the base value *)
-Theorem C19_view_refuted_cas_after_remove :
-  exists b ops, st_okb b = true /\ ~ full_view U1 b ops.
-Proof.
-  exists (mkStore [(0, RHash 0)] [] 0 0 [] []), [ODelRef 0; OCas 0 (RHash 1) 0 (RHash 0)].
-  split; [reflexivity|]. unfold full_view. vm_compute. intro H.
-  inversion H as [|? ? ? ? _ H2]; subst. inversion H2 as [|? ? ? ? HP _]; subst.
-  discriminate.
-Qed.
-Print Assumptions C19_view_refuted_cas_after_remove.
-
-(* SetShallow([]) is invisible *)
-Theorem C19_view_refuted_shallow_clear :
-  exists b ops, st_okb b = true /\ ~ full_view U1 b ops.
-Proof.
-  exists (mkStore [] [] 0 0 [0] []), [OSetShallow []; OGetShallow].
-  split; [reflexivity|]. unfold full_view. vm_compute. intro H.
-  inversion H as [|? ? ? ? _ H2]; subst. inversion H2 as [|? ? ? ? HP _]; subst.
-  discriminate.
-Qed.
-Print Assumptions C19_view_refuted_shallow_clear.
 
 (* an object rewritten in the transaction is listed twice *)
 Theorem C19_view_refuted_iter_objects :
@@ -102,38 +72,38 @@ Proof.
 Qed.
 Print Assumptions C19_view_refuted_iter_objects.
 
-(* ... and Commit does not write the cleared shallow list *)
-Theorem C19_commit_refuted_shallow_clear :
-  exists b ops, st_okb b = true /\
-    g_commit (fst (g_run U1 (txn_begin b) ops)) <> spec_commit (fst (spec_run U1 (spec_begin b) ops)).
-Proof.
-  exists (mkStore [] [] 0 0 [0] []), [OSetShallow []].
-  split; [reflexivity|]. vm_compute. discriminate.
-Qed.
-Print Assumptions C19_commit_refuted_shallow_clear.
+(* ... and the guard is exact for the full listing: whenever it fails in a
+   reachable state, IterEncodedObjects(AnyObject) differs from the view's *)
+Theorem C19_guard_tight_iter_objects : forall U t,
+  Inv t -> op_ok U t (OIterObjs 0) = false ->
+  ~ Permutation (g_iter_objs U t 0) (st_iter_objs U 0 (absview t)).
+Proof. exact guard_tight_iter_objs. Qed.
+Print Assumptions C19_guard_tight_iter_objects.
 
-(* ---- the guards of the two reference calls are exact: whenever the guard
-   fails in a reachable state, the transaction's answer differs from the view's *)
-Theorem C19_guard_tight_iter : forall t,
-  Inv t -> op_ok (fun _ => (0, 0)) t OIterRefs = false ->
-  ~ Permutation (g_iter_refs t) (s_refs (absview t)).
-Proof. exact guard_tight_iter. Qed.
-Print Assumptions C19_guard_tight_iter.
+(* ---- the three witnesses of the tree as found now satisfy the statement,
+   answers and Commit *)
+Example C19_repaired_witnesses :
+  (* overwritten reference listed once, removed reference not listed *)
+  snd (g_run U1 (txn_begin (mkStore [(0, RHash 0); (1, RHash 0)] [] 0 0 [] []))
+             [OSetRef 0 (RHash 1); ODelRef 1; OIterRefs])
+  = [ROk; ROk; RRefs [(0, RHash 1)]]
+  (* CAS after RemoveReference: not found *)
+  /\ snd (g_run U1 (txn_begin (mkStore [(0, RHash 0)] [] 0 0 [] []))
+                [ODelRef 0; OCas 0 (RHash 1) 0 (RHash 0); OGetRef 0])
+     = [ROk; RErr ENotFound; RErr ENotFound]
+  (* SetShallow([]) is visible and committed *)
+  /\ (let t := fst (g_run U1 (txn_begin (mkStore [] [] 0 0 [0] [])) [OSetShallow []]) in
+      g_shallow t = [] /\ s_shallow (g_commit t) = []).
+Proof. vm_compute. repeat split. Qed.
 
-Theorem C19_guard_tight_cas : forall U t n v on ov,
-  Inv t -> op_ok U t (OCas n v on ov) = false ->
-  snd (g_step U t (OCas n v on ov))
-  <> snd (spec_step U (mkSpec (t_base t) (absview t)) (OCas n v on ov)).
-Proof. exact guard_tight_cas. Qed.
-Print Assumptions C19_guard_tight_cas.
-
-(* ---- non-vacuity: a history with writes of every kind passes all guards, and
+(* ---- non-vacuity: a history with writes of every kind passes the guard, and
    the invariant used above holds of every state the model can reach *)
 Example C19_guards_nonvacuous :
   guards U1 (txn_begin (mkStore [(0, RHash 0); (2, RSym 0)] [(1, tt)] 1 2 [1] [(0, [5])]))
-    [OSetRef 1 (RHash 2); OCas 1 (RHash 3) 1 (RHash 2); OGetRef 1; OIterRefs; ODelRef 1;
+    [OSetRef 0 (RHash 2); OCas 0 (RHash 3) 0 (RHash 2); OGetRef 0; OIterRefs; ODelRef 2;
+     OCas 2 (RHash 1) 2 (RSym 0); OIterRefs;
      OSetObj 2; OHasObj 1; OGetObj 3 2; OIterObjs 0; OSetIdx 3; OGetIdx; OSetCfg 0; OGetCfg;
-     OSetShallow [2; 1]; OGetShallow; ODelLog 0; OAppendLog 0 7; OAppendLog 3 8; OGetLog 0] = true.
+     OSetShallow []; OGetShallow; ODelLog 0; OAppendLog 0 7; OAppendLog 3 8; OGetLog 0] = true.
 Proof. vm_compute. reflexivity. Qed.
 
 Example C19_inv_reachable : forall U b ops, st_okb b = true -> Inv (fst (g_run U (txn_begin b) ops)).
